@@ -59,7 +59,16 @@ class CallGraph:
                     out.append(f)
             return out
         f = self.fn_by_key.get(k)
-        return [f] if f is not None else []
+        if f is not None:
+            return [f]
+        # a call to a function template: the facts hold the template pattern (parameter types are dependent), the
+        # call names an instantiation - match by qualified name and arity
+        fq = call.get("fn")
+        if fq:
+            cands = [t for t in self.F.fns(fq) if t.get("templated") and len(t["params"]) == len(call.get("args", []))]
+            if len(cands) == 1:
+                return cands
+        return []
 
     # ------------------------------------------------------------------ exceptions
     @staticmethod
